@@ -982,7 +982,7 @@ def broadcast_and_apply(  # noqa: C901
                         ),
                     ):
                         offsets = x.offsets
-                        lencontent = offsets[-1]
+                        lencontent = offsets[-1] if len(offsets) > 1 else 0
                         nextinputs.append(x.content[:lencontent])
 
                     elif isinstance(
